@@ -12,7 +12,7 @@
 (*                                                                         *)
 (* The object kinds and their call alphabets below generate the call       *)
 (* histories that are executed on the real library inside guarded arenas.  *)
-(* `Deviation` names the two ways the code has been seen to break the      *)
+(* `Deviation` names the ways the code has been seen to break the          *)
 (* discipline; with Deviation = "none" (the intended design) TLC shows the *)
 (* frame condition, with the named deviations it shows the violation.      *)
 (***************************************************************************)
@@ -20,7 +20,7 @@ EXTENDS Sequences, FiniteSets, Naturals, TLC
 
 CONSTANTS Kind,        \* the object kind explored by a configuration
           Depth,       \* number of calls after creation
-          Deviation    \* "none" | "append-to-argument" | "append-to-handed-out"
+          Deviation    \* "none" | "append-to-argument" | "append-to-handed-out" | "token-in-state-buffer"
 
 VARIABLES hist,        \* sequence of call names so far (the behaviour)
           handed,      \* regions handed out so far
@@ -74,6 +74,10 @@ CreatedRegions(k) ==
 \* calls that have been seen to build a derived byte string by append()
 AppendsOntoArgument(k, c) == k = "ed25519" /\ c \in {"Blind", "Unblind", "BlindSign"}       \* blind || 0x00 || context
 AppendsOntoHandedOut(k, c) == k = "t3state" /\ c \in {"FinGood", "FinBad"}                  \* enc || response nonce
+\* third deviation seen in the code (D15): the token is assembled by append() in the request state's own buffer, which
+\* has spare capacity, and the returned token points into it - a second successful finalization on the same state
+\* writes (the same bytes) into the token handed out by the first
+BuildsTokenInStateBuffer(k, c) == k = "t1state" /\ c = "FinGood"
 
 Init == hist = <<>> /\ handed = CreatedRegions(Kind) /\ written = {}
 
@@ -84,6 +88,8 @@ Call(c) ==
   /\ written' = IF Deviation = "append-to-argument" /\ AppendsOntoArgument(Kind, c) THEN {"arg.blind"}
                 ELSE IF Deviation = "append-to-handed-out" /\ AppendsOntoHandedOut(Kind, c) /\ "out.request.fields" \in handed
                   THEN {"out.request.fields"}
+                ELSE IF Deviation = "token-in-state-buffer" /\ BuildsTokenInStateBuffer(Kind, c) /\ "out.token" \in handed
+                  THEN {"out.token"}
                 ELSE {}
 
 Next == \E c \in CallsOf(Kind) : Call(c)
